@@ -437,7 +437,7 @@ DESTRUCTOR_ENTRIES = {
 }
 
 
-def scenario_destructor(case, light=False):
+def scenario_destructor(case, light=False, spec_first=False):
     """A registered value whose last reference is held by a lookup cache: it is
     replaced, changed() drops the caches, and the value's destructor runs in
     the middle of that and performs the action (a re-entrant lookup, a
@@ -505,6 +505,21 @@ def scenario_destructor(case, light=False):
     else:
         t.reg.register([t.I0], t.P, 'd', t.fNEW)
     t.apply_mutation_only(action)
+    if spec_first and action not in ('rebase-interface',):
+        # second pass: the looked-up interface changes *before* anybody looks
+        # anything up again (a lookup would start to watch it again and hide
+        # that what the destructor cached is not watched)
+        for x in (w, t):
+            x.I1.__bases__ = (x.X,)
+        for name, fn in DESTRUCTOR_ENTRIES.items():
+            a, b = norm(fn(w)), norm(fn(t))
+            if a != b:
+                return ('stale-after-an-immediate-specification-change:' + name, a, b), True
+        for e in ENTRIES:
+            a, b = norm(w.call(e)), norm(t.call(e))
+            if a != b:
+                return ('stale-after-an-immediate-specification-change:' + e, a, b), True
+        return None, True
     for name, fn in DESTRUCTOR_ENTRIES.items():
         a, b = norm(fn(w)), norm(fn(t))
         if a != b:
@@ -526,14 +541,18 @@ def scenario_destructor(case, light=False):
             a, b = norm(w.call(e)), norm(t.call(e))
             if a != b:
                 return ('stale-after-later-specification-change:' + e, a, b), True
+    if not spec_first:
+        return scenario_destructor(case, light, spec_first=True)
     return None, True
 
 
-def scenario(case, light=False):
+def scenario(case, light=False, spec_first=False):
     """Returns (violation or None, fired?)."""
     flavour, entry, site, action, warm = case
     if site.startswith('value-destructor'):
         return scenario_destructor(case, light)
+    if spec_first and action == 'rebase-interface':
+        return None, True
     lazy = 'twin' if site == 'key-destructor' else site == 'required-iter'
     if lazy and entry not in LAZY_OK:
         return None, False
@@ -596,6 +615,20 @@ def scenario(case, light=False):
         elif site == 'generation' and rc <= 0 and action not in ('nop', 'gc', 'reenter-same', 'reenter-other', 'raise'):
             return ('use-after-free:verify-ro-read-while-unowned',
                     'owners other than the harness at the call-out: %d' % rc), True
+    if spec_first:
+        # second pass: the looked-up interface changes before anybody looks
+        # anything up again
+        w.armed = False
+        t = World(flavour, audit=False)
+        t.apply_mutation_only(action)
+        for x in (w, t):
+            x.I1.__bases__ = (x.X,)
+        for e in ENTRIES:
+            lz = e in LAZY_OK and lazy
+            a, b = norm(w.call(e, lz)), norm(t.call(e, lz))
+            if a != b:
+                return ('stale-after-an-immediate-specification-change:' + e, a, b), True
+        return None, True
     # no stale survivor: every entry point now gives the after-answer
     w.armed = False
     for e in ENTRIES:
@@ -644,6 +677,10 @@ def scenario(case, light=False):
                 return ('leak:cache-dict-still-referenced-after-the-lookup-ended',
                         'references nobody accounts for: %d' % extra), True
             i += 1
+    if not light and not spec_first:
+        v2, _ = scenario(case, light, spec_first=True)
+        if v2:
+            return v2, True
     return None, True
 
 
